@@ -1116,7 +1116,7 @@ class FlowIRExperimentConfiguration:
             raw = self.is_raw
 
         if '#' not in key:
-            self._concrete.get_component_variable(comp_id, key)
+            return self._concrete.get_component_variable(comp_id, key)
         else:
             key = key[1:]
             comp_flowir = self._concrete.get_component_configuration(comp_id, raw=True, include_default=include_default)
